@@ -39,6 +39,11 @@ type Scenario struct {
 	// MetamorphicReverse: also the other direction (a disagreement on a job-free
 	// history that goes away once the jobs have run)
 	MetamorphicReverse bool
+	// PastForeign: a disagreement that only another property owns does not end the
+	// branch: the model goes on by the specification, the implementation by what it
+	// did, and this property's rules keep being judged (for scenarios in which the
+	// unchanged tree has no foreign disagreement at all)
+	PastForeign bool
 	// AlsoOwn: rules this scenario's property owns here in addition to its own
 	// (the scenario is built so that these rules can only fire for its reason,
 	// e.g. "not offered" in a scenario about retention)
@@ -228,7 +233,7 @@ func (wk *Worker) Run(t Task) (res Result) {
 		res.Err = err.Error()
 		return
 	}
-	if len(hits) > 0 {
+	if len(hits) > 0 && !sc.PastForeign {
 		res.Err = fmt.Sprintf("DIVERGED: replay of an accepted path produced hits: %v", hits)
 		return
 	}
@@ -630,9 +635,11 @@ func Explore(sc *Scenario, exe string, workerArgs []string, nWorkers int, deadli
 						}
 						path := append(append([]string{}, it.path...), s.Label)
 						if len(s.Hits) > 0 {
+							allForeign := true
 							for _, h := range s.Hits {
 								st.RuleHits[h.Rule]++
 								if owns(h) {
+									allForeign = false
 									viol = append(viol, Violation{Scen: sc.ID, Path: path, Hit: h})
 								} else {
 									st.Foreign[h.Rule]++
@@ -644,7 +651,9 @@ func Explore(sc *Scenario, exe string, workerArgs []string, nWorkers int, deadli
 									}
 								}
 							}
-							continue // never explore beyond a disagreement
+							if !(sc.PastForeign && allForeign) {
+								continue // never explore beyond a disagreement
+							}
 						}
 						if !seen[s.Key] {
 							next = append(next, item{path, s.Key})
